@@ -353,6 +353,7 @@ void stopMonitor() {
 }
 void noteProgress() { gProgress.fetch_add(1, std::memory_order_relaxed); }
 void failNextCreate() { tFailNextCreate = true; }
+void cancelFailNextCreate() { tFailNextCreate = false; }
 uint64_t createFailuresInjected() { return gCreateFailures.load(); }
 
 void pinCpus(int n, int base) {
